@@ -79,6 +79,9 @@ def run(mid, props):
     if out.strip():
         print("refusing: /repo is dirty"); return
     rc, out = sh("git -C /repo apply %s" % os.path.join(d, "patch.diff"))
+    if rc != 0:
+        print(mid, "PATCH DOES NOT APPLY to the current /repo:", out.strip()[:300])
+        return
     results = {}
     try:
         for p in props:
